@@ -16,7 +16,14 @@ Definition model_run (v : tval) : markers * list gen :=
   let pre := map vn (vl (vnth 2 v)) in
   grun MaxAttempts (fun k => existsb (N.eqb k) pre) (map dec_thread (vl (vnth 0 v))) (map vnat (vl (vnth 1 v))).
 
+(* uuid case = [ 9 ; n ; draws ; observed ]   draw = [] (the read failed) | [idx] ; observed = idx per returned id *)
+Definition dec_draw (v : tval) : option id := match vopt v with Some x => Some (vn x) | None => None end.
+Definition uuid_model (v : tval) : list id := ugen false (vnat (vnth 1 v)) (map dec_draw (vl (vnth 2 v))).
+Definition check_uuid (v : tval) : bool := all2 N.eqb (uuid_model v) (map vn (vl (vnth 3 v))).
+Definition is_uuid_case (v : tval) : bool := match vnth 0 v with VN 9 => true | _ => false end.
+
 Definition check (v : tval) : bool :=
+  if is_uuid_case v then check_uuid v else
   let '(m, ts) := model_run v in
   all2 (fun g tv => all2 pair_eqb (rev (map enc_res (log g))) (dec_log (vnth 3 tv))) ts (vl (vnth 0 v))
   && forallb (fun k => Bool.eqb (m (N.of_nat k)) (existsb (N.eqb (N.of_nat k)) (map vn (vl (vnth 4 v)))))
@@ -25,6 +32,7 @@ Definition check (v : tval) : bool :=
   && forallb (fun g => match skip_noops (ops g) (held g) with [] => true | _ => false end) ts.
 
 Definition predict (v : tval) : tval :=
+  if is_uuid_case v then VL (map VN (uuid_model v)) else
   let '(m, ts) := model_run v in
   VL [VL (map (fun g => VL (map (fun r => VL [VN (fst (enc_res r)); VN (snd (enc_res r))]) (rev (log g)))) ts);
       VL (map (fun k => VN (N.of_nat k)) (filter (fun k => m (N.of_nat k)) (seq 0 (vnat (vnth 3 v)))))].
